@@ -163,6 +163,9 @@ func TestBacktrace(t *testing.T) {
 		Operands: []string{"1", "0"},
 		Stacks:   [][]Frame{{{"f", []string{}}, {"g", []string{"13"}}}, {{"g", []string{"13"}}, {"h", []string{}}}},
 	}
+	if err != nil {
+		err.Op = ""
+	}
 	if !reflect.DeepEqual(err, want) {
 		t.Errorf("got %+v, want %+v", err, want)
 	}
@@ -182,6 +185,9 @@ func TestBacktrace(t *testing.T) {
 			{},
 		},
 	}
+	if err != nil {
+		err.Op = ""
+	}
 	if !reflect.DeepEqual(err, want) {
 		t.Errorf("got %+v, want %+v", err, want)
 	}
@@ -189,12 +195,18 @@ func TestBacktrace(t *testing.T) {
 	// -x is -1 * x
 	_, _, err = run(t, in, "-true")
 	want = &RunError{Class: ErrType, Operands: []string{"-1", "true"}, Stacks: [][]Frame{{}}}
+	if err != nil {
+		err.Op = ""
+	}
 	if !reflect.DeepEqual(err, want) {
 		t.Errorf("got %+v, want %+v", err, want)
 	}
 
 	_, _, err = run(t, in, "aton([1])")
 	want = &RunError{Class: ErrType, Operands: []string{"[1]"}, Stacks: [][]Frame{{{"aton", []string{"[1]"}}}}}
+	if err != nil {
+		err.Op = ""
+	}
 	if !reflect.DeepEqual(err, want) {
 		t.Errorf("got %+v, want %+v", err, want)
 	}
